@@ -627,8 +627,6 @@ class BundleV2(object):
         return self.store_tiles([tile], dimensions=dimensions)
 
     def store_tiles(self, tiles, dimensions=None):
-        self._init_index()
-
         tiles_data = []
         for t in tiles:
             if t.stored:
@@ -649,7 +647,6 @@ class BundleV2(object):
         if tile.coord is None:
             return True
 
-        self._init_index()
         with FileLock(self.lock_filename, directory_permissions=self.directory_permissions,
                       file_permissions=self.file_permissions, remove_on_unlock=True):
             with self._readwrite() as fh:
